@@ -16,27 +16,31 @@ CLEAN = ['cleanup_staging', 'cleanup_cancellable', 'compact', 'compact_by_date',
 
 PROFILES = {
     # weights per op kind
-    'counters': dict(batch=1, submit=5, update=3, groups=3, jobs=4, commit=4, cancel=6, delete=1, instance=1, deactivate=2,
+    'counters': dict(batch=1, submit=5, late_child=3, update=3, groups=3, jobs=4, commit=4, cancel=6, delete=1, instance=1, deactivate=2,
                      schedule=9, creating=1, started=5, complete=12, unschedule=2, sched_loop=7, cancel_ready=3, cancel_creating=1,
                      cancel_running=2, cancel_orphans=1, cleanup_staging=2, cleanup_cancellable=2, tick=1),
     'billing': dict(batch=1, submit=4, cancel=1, instance=1, deactivate=2, schedule=5, creating=1, jp_schedule=1, activate=1, started=9,
                     complete=9, billing=9, unschedule=2, sched_loop=3, burst=8, compact=3, compact_by_date=3, tick=9, daytick=2),
-    'lifecycle': dict(batch=1, submit=6, update=1, jobs=2, commit=2, cancel=3, instance=2, deactivate=2, schedule=6, schedule_any=3,
-                      creating=2, started=5, started_fresh=2, complete=9, unschedule=3, sched_loop=3, cancel_ready=2, cancel_running=2,
-                      cancel_orphans=2, tick=1),
-    'deps': dict(batch=1, submit=5, update=4, groups=2, jobs=5, commit=6, cancel=1, instance=1, schedule=7, complete=9, sched_loop=5,
+    'lifecycle': dict(batch=1, submit=6, late_child=4, update=1, jobs=2, commit=2, cancel=3, instance=2, deactivate=2, schedule=6, schedule_any=3,
+                      creating=4, activate=3, jp_schedule=3, cancel_creating=2, started=5, started_fresh=2, complete=9, unschedule=3, sched_loop=3,
+                      cancel_ready=2, cancel_running=2, cancel_orphans=2, tick=1),
+    'deps': dict(batch=1, submit=5, late_child=5, update=4, groups=2, jobs=5, commit=6, cancel=1, instance=1, schedule=7, complete=9, sched_loop=5,
                  cancel_ready=3, creating=4, activate=2, jp_schedule=2, tick=1),
-    'groups': dict(batch=1, submit=6, update=4, groups=4, jobs=4, commit=5, cancel=4, delete=1, instance=1, schedule=5, complete=8,
+    'groups': dict(batch=1, submit=6, late_child=2, update=4, groups=4, jobs=4, commit=5, cancel=4, delete=1, instance=1, schedule=5, complete=8,
                    sched_loop=4, cancel_ready=4, cancel_running=1, tick=1),
-    'cancel': dict(batch=1, submit=6, update=3, groups=4, jobs=4, commit=4, cancel=9, instance=2, schedule=6, schedule_any=2, creating=3,
+    'cancel': dict(batch=1, submit=6, late_child=2, update=3, groups=4, jobs=4, commit=4, cancel=9, instance=2, schedule=6, schedule_any=2, creating=3,
                    started=4, complete=5, sched_loop=5, cancel_ready=3, cancel_creating=2, cancel_running=3, cleanup_cancellable=2,
                    tick=1),
     'instances': dict(batch=1, submit=5, instance=4, activate=4, deactivate=4, mark_deleted=2, schedule=8, schedule_any=2, creating=5, jp_schedule=4,
                       started=5, started_fresh=2, complete=8, unschedule=4, sched_loop=3, cancel_running=2, cancel_orphans=2, cancel=3, cancel_creating=3, cancel_ready=1,
                       tick=1),
-    'uncommitted': dict(batch=1, submit=4, update=6, groups=4, jobs=7, commit=3, cancel=3, instance=1, schedule=6, complete=9,
+    'uncommitted': dict(batch=1, submit=4, late_child=2, update=6, groups=4, jobs=7, commit=3, cancel=3, instance=1, schedule=6, complete=9,
                         sched_loop=6, cancel_ready=3, cancel_running=1, cleanup_staging=1, tick=1),
 }
+
+
+# in how many of four cases a 'chain' is woven into the history (see strategies)
+CHAINS = {'lifecycle': 1, 'deps': 1, 'counters': 1, 'cancel': 1, 'instances': 1}
 
 
 def strategies(profile, max_ops=40):
@@ -45,7 +49,7 @@ def strategies(profile, max_ops=40):
     small = st.integers(0, 5)
     ref = st.integers(-4, 4)
     job = st.fixed_dictionaries({'g': st.integers(-3, 3), 'parents': st.lists(ref, max_size=3), 'cpu': st.integers(0, 5)},
-                                optional={'ar': st.booleans(), 'pool': st.sampled_from([0, 0, 1, 2])})
+                                optional={'ar': st.booleans(), 'pool': st.sampled_from([0, 0, 1, 2, 2])})
     jobs = st.lists(job, min_size=1, max_size=6)
     groups = st.lists(st.integers(-3, 3), max_size=3)
     res = st.one_of(st.none(), st.lists(st.tuples(st.integers(0, 40), st.integers(0, 4)).map(list), min_size=1, max_size=3))
@@ -56,6 +60,12 @@ def strategies(profile, max_ops=40):
             return st.tuples(st.just('batch'), st.integers(0, 1), st.integers(0, 1)).map(list)
         if kind == 'submit':
             return st.tuples(st.just('submit'), small, groups, jobs).map(list)
+        if kind == 'late_child':
+            # a whole later update (reserve + bunch + commit in one op) whose jobs depend on jobs of earlier updates, whatever state
+            # those are in by now: exercises commit_batch_update's recomputation from the parents' current states
+            lj = st.fixed_dictionaries({'g': st.integers(0, 3), 'parents': st.lists(st.integers(0, 12), min_size=1, max_size=3),
+                                        'cpu': st.integers(0, 5)}, optional={'ar': st.booleans(), 'pool': st.sampled_from([0, 0, 2])})
+            return st.tuples(st.just('submit'), small, st.just([]), st.lists(lj, min_size=1, max_size=3)).map(list)
         if kind == 'update':
             return st.tuples(st.just('update'), small, groups, st.one_of(jobs, st.just([]))).map(list)
         if kind == 'groups':
@@ -111,7 +121,51 @@ def strategies(profile, max_ops=40):
     prefix = [['instance', 0, True], ['batch', 0, 0]]
     cfg = st.fixed_dictionaries({'n_tokens': st.sampled_from([1, 2, 5]), 'draws': st.lists(st.integers(0, 15), min_size=1, max_size=8)})
     first = st.tuples(st.sampled_from(['submit', 'submit', 'update']), st.just(0), groups, jobs).map(list)
-    return st.builds(lambda c, f, ops: {'cfg': c, 'ops': prefix + [f] + ops}, cfg, first, st.lists(op, min_size=8, max_size=max_ops))
+    free = st.builds(lambda c, f, ops: {'cfg': c, 'ops': prefix + [f] + ops}, cfg, first, st.lists(op, min_size=8, max_size=max_ops))
+    if not CHAINS.get(profile):
+        return free
+
+    # 'chain' cases: one job is followed through its whole lifecycle (index -1 = the most recent job / instance / attempt), a later
+    # update with children of existing jobs is committed at a generated point of that lifecycle, and free ops are interleaved between
+    # the steps.  Free generation alone reaches e.g. 'a later update committed while its parent is Creating, and that parent then
+    # completes' in well under 1% of cases.
+    cstate = st.sampled_from([0, 0, 1, 2])
+
+    def chain(jp, ar, cpu, cst, mid_cancel):
+        j = {'g': 0, 'parents': [], 'cpu': cpu, 'pool': 2 if jp else 0}
+        if ar:
+            j['ar'] = True
+        steps = [['submit', 0, [], [j]]]
+        if jp:
+            steps += [['creating', -1, 0, None], ['activate', -1], ['jp_schedule', -1]]
+        else:
+            steps += [['schedule', -1, 0]]
+        steps += [['started', -1, 0, None], ['complete', -1, cst, 0, 5, None, True, 1]]
+        if mid_cancel:
+            steps.insert(mid_cancel % len(steps) + 1, ['cancel', 0, 0])
+        return steps
+
+    chains = st.builds(chain, st.booleans(), st.booleans(), st.integers(0, 5), cstate, st.sampled_from([0, 0, 0, 1, 2, 3, 4]))
+    child = st.fixed_dictionaries({'g': st.integers(0, 3), 'parents': st.lists(st.sampled_from([-1, -1, 0, 1, 2]), min_size=1, max_size=2),
+                                   'cpu': st.integers(0, 5)}, optional={'ar': st.booleans(), 'pool': st.sampled_from([0, 0, 2])})
+
+    def weave(c, f, steps, at, kids, gaps, tail):
+        ops = prefix + [f]
+        at = 1 + at % len(steps)
+        for i, s_ in enumerate(steps):
+            if i == at:
+                # parents: -1 -> the chain's job (the most recently reserved id), others -> any existing job
+                ops.append(['late_children', 0, kids])
+            ops.append(s_)
+            ops += gaps[i % len(gaps)]
+        if at >= len(steps):
+            ops.append(['late_children', 0, kids])
+        return {'cfg': c, 'ops': ops + tail}
+
+    chained = st.builds(weave, cfg, first, chains, st.integers(0, 7), st.lists(child, min_size=1, max_size=2),
+                        st.lists(st.lists(op, max_size=2), min_size=1, max_size=8), st.lists(op, max_size=12))
+    k = CHAINS[profile]
+    return st.one_of(*([free] * (4 - k) + [chained] * k))
 
 
 def classify(w):
@@ -125,9 +179,12 @@ def classify(w):
         if r.get('skipped'):
             continue
         ok = r.get('ok')
-        if k in ('commit', 'submit') and ok:
+        if k in ('commit', 'submit', 'late_children') and ok:
             n_commits += 1
             committed_seen = True
+        if k in ('commit', 'submit', 'late_children') and ok:
+            for ps in r.get('parent_states_at_commit', ()):
+                cls.add('later_commit_parent_' + ps)
         if k == 'cancel' and ok and committed_seen:
             cancel_after_commit = True
             cls.add('cancel_after_commit')
